@@ -51,7 +51,9 @@ Record facts := {
      type; does every class get its own cache set *)
   f_cache_sites : list (string * string);
   f_cache_typed_scalars : bool;
-  f_cache_per_class : bool
+  f_cache_per_class : bool;
+  (* BasicErrorHandler.add starts with a deep copy of the error and only then rewrites paths *)
+  f_handler_add_copies : bool
 }.
 
 Definition errdef (F : facts) (name : string) : Z * option string :=
